@@ -63,3 +63,21 @@ package types
 //@                && (forall j:Int :: 0 <= j && j < len(pool.Rules) ==> pool.Rules[j].RewardPerBlock * (end - pool.StartHeight) <= pool.Rules[j].TotalReward)
 //@   nopanic
 //@ end
+
+// list helpers used by AdjustPool (inlined there)
+//@ func RewardRules.Contains
+//@   inline
+//@   invariant #1 idx: rangeindex >= 0 - 1 && rangeindex < len(rs)
+//@ end
+//@ func RewardRules.UpdateWith
+//@   inline
+//@   invariant #1 idx: rangeindex >= 0 - 1 && rangeindex < len(rs)
+//@ end
+//@ func RewardRules.RewardsPerBlock
+//@   inline
+//@   invariant #1 idx: rangeindex >= 0 - 1 && rangeindex < len(rs)
+//@ end
+//@ func RewardRules.TotalReward
+//@   inline
+//@   invariant #1 idx: rangeindex >= 0 - 1 && rangeindex < len(rs)
+//@ end
